@@ -34,12 +34,14 @@ impl PhysicalFS {
 
 impl FileSystem for PhysicalFS {
     fn read_dir(&self, path: &str) -> VfsResult<Box<dyn Iterator<Item = String> + Send>> {
-        let entries = Box::new(
-            self.get_path(path)
-                .read_dir()?
-                .map(|entry| entry.unwrap().file_name().into_string().unwrap()),
-        );
-        Ok(entries)
+        let mut entries = Vec::new();
+        for entry in self.get_path(path).read_dir()? {
+            let name = entry?.file_name().into_string().map_err(|name| {
+                VfsErrorKind::Other(format!("File name {:?} is not valid UTF-8", name))
+            })?;
+            entries.push(name);
+        }
+        Ok(Box::new(entries.into_iter()))
     }
 
     fn create_dir(&self, path: &str) -> VfsResult<()> {
